@@ -141,6 +141,7 @@ def containment(chk: Check) -> None:
         for h in t.handlers:
             if h.type is not None and unparse(h.type) == 'Exception':
                 chk.ob('ESC-handler-order', st, not any(isinstance(x, ast.Raise) for s in h.body for x in ast.walk(s)), 'step()\'s catch-all does not re-raise', kind='no-reraise')
+    failure_handlers_build_excepted(chk)
     chk.assumptions.append('single-fault assumption of the property: the follow-up transition to EXCEPTED does not itself fail '
                            '(transition_to re-raises under _transition_failing)')
     chk.assumptions.append('user exceptions are plain Exception subclasses: typed handlers (KeyError, AttributeError, TimeoutError...) are transparent for them')
@@ -272,3 +273,28 @@ def prov_failure_states(chk: Check) -> None:
     chk.ob('PROV-failure-state', ce_f, ok, 'callback_excepted fails the process with that exception', node=fl[0] if fl else None, kind='callback-fails')
     done = [n for t in ast.walk(cb.node) if isinstance(t, ast.Try) for n in t.finalbody]
     chk.info('PROV-failure-state', f'ProcessCallback.run finally: {[norm(s) for s in done]}')
+
+
+def failure_handlers_build_excepted(chk: Check, rule: str = 'ESC-handler-order') -> None:
+    """step(): whatever escapes the state's execute and is not an Interruption / KeyboardInterrupt / task cancellation is a FAILURE: every
+    handler that can catch it builds the EXCEPTED state (a typed handler slipped in front of the catch-all -- ``except KilledError`` --
+    would turn the failure of an awaited item into something else).  Shared with C10."""
+    prog = chk.prog
+    st = prog.func('processes.Process.step')
+    calls = chk.ctx.calls
+    CONTROL = {'Interruption', 'KeyboardInterrupt', 'CancelledError', 'PauseInterruption', 'KillInterruption'}
+    n = 0
+    for t in [x for x in ast.walk(st.node) if isinstance(x, ast.Try)]:
+        if not any(isinstance(c, ast.Call) and last_name(c) == '_run_task' for s_ in t.body for c in ast.walk(s_)):
+            continue
+        for h in t.handlers:
+            names = [unparse(x).split('.')[-1] for x in (h.type.elts if isinstance(h.type, ast.Tuple) else [h.type])] if h.type is not None else ['<bare>']
+            if all(nm in CONTROL for nm in names):
+                continue
+            n += 1
+            built = [calls.state_ctor_label(st, c) for s_ in h.body for c in ast.walk(s_) if isinstance(c, ast.Call)]
+            built = [repr(b) for b in built if b is not None]
+            rer = Esc._just_reraises(h)
+            chk.ob(rule, st, rer or (bool(built) and all(b == 'ProcessState.EXCEPTED' for b in built)),
+                   f'the handler for {names} around the state\'s execute turns what it catches into the EXCEPTED state (builds: {built or "nothing"})', node=h, kind='failure-handler-builds-excepted')
+    chk.ob(rule, st, n >= 1, 'step() has a handler for failures of the state\'s execute', kind='failure-handler-present')
